@@ -17,6 +17,7 @@ import (
 
 type Clause struct {
 	Name string // optional [name]
+	Optional bool // `invariant?`: dropped when it names a local the function does not have
 	Src  string
 	E    Expr
 	Line int
@@ -391,14 +392,15 @@ func loadContractsFile(pkgPath, dir, file string) (*PkgContracts, error) {
 			if cur == nil {
 				return nil, fail(rc.line, "loop outside func")
 			}
-			m := regexp.MustCompile(`^(\d+)\s+invariant\s+(.*)$`).FindStringSubmatch(rest)
+			m := regexp.MustCompile(`^(\d+)\s+invariant\??\s+(.*)$`).FindStringSubmatch(rest)
+			optionalInv := regexp.MustCompile(`^\d+\s+invariant\?`).MatchString(rest)
 			if m == nil {
 				return nil, fail(rc.line, "loop: want `loop K invariant [name] expr`")
 			}
 			var k int
 			fmt.Sscan(m[1], &k)
 			body := m[2]
-			cl := Clause{Line: rc.line}
+			cl := Clause{Line: rc.line, Optional: optionalInv}
 			if mm := nameTagRe.FindStringSubmatch(body); mm != nil {
 				cl.Name = mm[1]
 				body = body[len(mm[0]):]
